@@ -14,6 +14,7 @@ mod node;
 mod oracles;
 mod rng;
 mod search;
+mod storage;
 
 use driver::{Scenario, Tier};
 
@@ -21,6 +22,7 @@ fn registry() -> Vec<Box<dyn Scenario>> {
     let mut v: Vec<Box<dyn Scenario>> = vec![];
     v.extend(cluster::scenarios());
     v.extend(search::scenarios());
+    v.extend(storage::scenarios());
     v
 }
 
@@ -42,6 +44,19 @@ fn main() {
     if let Err(e) = rangeoracle::self_test() {
         println!("HARNESS-ERROR oracle self-test failed: {e}");
         std::process::exit(2);
+    }
+    // Fixed warm-up: boot one server under a fixed entropy stream so that everything a process
+    // initialises lazily on first use is initialised identically in every process, before any run.
+    // Runs then execute in forked children of this state (driver::run_isolated).
+    if matches!(a[1].as_str(), "check" | "worker" | "replay" | "explore" | "determinism") {
+        entropy::swap_stream(Some(rng::Rng::new(0x5eed_0001)));
+        let ct = std::time::Duration::from_secs(cluster::BASE_EPOCH);
+        let ok = node::boot_qs(&node::NodeCfg::mem(), ct).and_then(|qs| node::boot_idm(qs, ct)).is_ok();
+        entropy::swap_stream(None);
+        if !ok {
+            println!("HARNESS-ERROR warm-up boot failed");
+            std::process::exit(2);
+        }
     }
     match a[1].as_str() {
         "list" => {
